@@ -1,0 +1,12 @@
+//go:build !verif
+
+// Package verifhook provides named yield points used by the external
+// verification harness. Without the "verif" build tag every point is an
+// empty, inlinable function.
+package verifhook
+
+// Enabled reports whether hook points are active in this build.
+const Enabled = false
+
+// Point is a no-op in normal builds.
+func Point(name string, args ...interface{}) {}
